@@ -13,6 +13,7 @@ from pydrobert.torch import data
 from pydrobert.torch import command_line as CL
 
 from mc.runner import Ctx, h64
+from mc.seams import LISTING_POLICIES
 from mc.oracles import datadir as O
 
 PROP = "C12"
@@ -74,6 +75,7 @@ BUDGET_S = {"quick": 240, "thorough": 2400}
 SOS, EOS = 7, 8
 F = 2
 FIXES = (None, 0, 1, 2)
+LISTINGS = [0]  # directory listings answered by the listing-order seam in this process
 MODE = [None]  # global torch mode the current shard runs under (part of sigs and replay cases)
 CONFIGS = ("plain", "sos_eos", "tokens_only", "with_uttids")
 
@@ -160,7 +162,8 @@ def ref_tensor(v, T, rng, tokens):
     return O.tens(dt, [len(rows), 3], rows)
 
 
-UTTS = {"a": (3, [0, 1, 2], [0, 1, 2]), "b": (4, [0, 1, 10], [1, 2, 12])}  # T, ali classes, ref tokens
+UTTS = {"a": (3, [0, 1, 2], [0, 1, 2]), "b": (4, [0, 1, 10], [1, 2, 12]),  # T, ali classes, ref tokens
+        "c": (3, [0, 2, 5], [2, 3, 3])}  # third utterance: only in the listing-order triples
 
 
 def build_state(spec, seed):
@@ -823,15 +826,15 @@ def layouts_of(spec):
             for sub in (DEFAULT_SUBDIRS, CUSTOM_SUBDIRS)]
 
 
-def run_layout(ctx, spec, tier, seed):
+def run_layout(ctx, spec, tier, seed, tag=""):
     for n, layout in enumerate(layouts_of(spec)):
-        D = Dir(scratch("layout-%d" % n), layout=layout)
+        D = Dir(scratch("layout-%d%s" % (n, tag)), layout=layout)
         visited = set()
         try:
             for defect in LAYOUT_DEFECTS:
                 for at in (range(len(LAYOUT_IDS)) if defect is not None else (0,)):
                     init = layout_state(layout, at, defect, seed)
-                    ctx.key(["layout", layout, h64(init)], nontrivial=True)
+                    ctx.key(["layout", tag, layout, h64(init)], nontrivial=True)
                     if defect is None and n == 0:
                         ctx.sample({"layout": layout, "files": sorted(D.real(k) for k in init),
                                     "planted_ids": O.utterances(init)})
@@ -856,6 +859,13 @@ def mode_ctx(mode):
         elif mode == "inference_mode":
             with torch.inference_mode():
                 yield
+        elif mode is not None and mode.startswith("listing-"):
+            # the order in which the OS lists feat/, ali/ and ref/ is an environment answer (mc.seams.ListingPolicy)
+            from mc.seams import ListingPolicy
+
+            with ListingPolicy(mode[len("listing-"):]) as lp:
+                yield
+            LISTINGS[0] += lp.calls
         else:
             yield
     finally:
@@ -873,12 +883,28 @@ def mode_specs():
     return out
 
 
+def triple_specs():
+    """three utterances (every listing policy is a different permutation of three entries): one clean, one repairable,
+    one that is repairable only with tolerance >= 1 - at every position of the sorted ids"""
+    Ta, Tb = UTTS["a"][0], UTTS["b"][0]
+    variants = [("ok", ("2d", (1,))), ("int32", ("2d", (3,))), ("T+1", ("2d", (6,)))]
+    out = []
+    for perm in itertools.permutations(range(3)):
+        out.append([(u, T, "ok", variants[k][0], variants[k][1])
+                    for (u, T), k in zip((("a", Ta), ("b", Tb), ("c", Ta)), perm)])
+    return out
+
+
 def run_modes(ctx, spec, tier, seed):
     D = Dir(scratch("mode-" + spec["mode"]))
     visited = set()
+    listing = spec["mode"].startswith("listing-")
     try:
         with mode_ctx(spec["mode"]):
-            for sp in mode_specs():
+            if listing:  # the discovery / layout pass (7 ids, decoys, defects at every id) under this listing order
+                for pre, suf in (("", ".pt"), ("utt-", ".feat.pt")):
+                    run_layout(ctx, {"prefix": pre, "suffix": suf}, tier, seed, tag=spec["mode"])
+            for sp in (triple_specs() if listing else []) + mode_specs():
                 init = build_state(sp, seed)
                 ctx.key(["mode", spec["mode"], h64(init)], nontrivial=is_defect(sp))
                 for config in ("plain", "sos_eos"):
@@ -1012,6 +1038,7 @@ def shards(tier, seed):
 
     out += [{"kind": "layout", "prefix": p, "suffix": x} for p in PREFIXES for x in SUFFIXES]
     out += [{"kind": "modes", "mode": m} for m in ("default-float64", "inference_mode")]
+    out += [{"kind": "modes", "mode": "listing-" + pol} for pol in LISTING_POLICIES[1:]]
     out += split("singles", "plain", 1.6)  # plain shards also do the report and the command
     out += split("pairs", "plain", 1.5)
     out += split("singles", "sos_eos")
